@@ -209,6 +209,20 @@ def check_composition(case, ctx):
         both = outcome(lambda: (p + q).transform(x, o))
         if (got != both and not (got[0] == both[0] == "fail")) or both not in acceptable:
             raise Violation("composition-law", f"steps={steps} cut={cut}: (p+q).transform={both}, q.transform(p.transform)={got}, expected {expected}")
+    # the evaluated pipeline is an ordinary function: calling it again (or mapping it over several elements) must
+    # apply every step each time
+    if expected[0] == "ok":
+        def twice():
+            f = whole.evaluate(o)
+            return [f(x), f(x), f(x)]
+        got = outcome(twice)
+        exp3 = outcome(lambda: [py_all(x), py_all(x), py_all(x)])
+        if got != exp3:
+            raise Violation("evaluated-function-not-reusable", f"steps={steps}: f = p.evaluate(o); [f(x), f(x), f(x)] = {got}, expected {exp3}")
+        got = outcome(lambda: (Value([x, x]) >> (F.map(whole) + list))(o))
+        exp_m = outcome(lambda: [py_all(x), py_all(x)])
+        if got != exp_m:
+            raise Violation("pipeline-as-function-argument", f"steps={steps}: F.map(p) over two elements gives {got}, expected {exp_m}")
     # e >> p
     e = Option("IN")
     o2 = {**o, "IN": x}
@@ -439,6 +453,6 @@ sem.HELPER_PY = {"add": lambda x, v: x + v, "subtract": lambda x, v: x - v, "mul
                  "divide_by": lambda x, v: x / v, "divide_into": lambda x, v: v / x, "eq": lambda x, v: x == v, "gt": lambda x, v: x > v}
 
 PARTS = [
-    Part("composition", check_composition, strategy=lambda ctx: composition_cases(), budget={"quick": 150, "thorough": 2500}),
+    Part("composition", check_composition, strategy=lambda ctx: composition_cases(), budget={"quick": 600, "thorough": 2500}),
     Part("helpers", check_helper, enumerate=enum_helpers, budget={"quick": None, "thorough": None}),
 ]
